@@ -80,3 +80,18 @@ Proof. intros H. eexists. rewrite H. split; [left; reflexivity|]. split; reflexi
 
 Lemma owned_bound t id a : ledger_wf a -> owned t id a -> id < next_id a.
 Proof. intros [_ Hb] (b & Hin & <- & _). apply Hb. assumption. Qed.
+
+(** A release only removes blocks; an allocation adds at most one block, carrying the requested tag. *)
+Lemma release_incl t id a a' : release t id a = Ok a' -> forall b, In b (live a') -> In b (live a).
+Proof.
+  unfold release. destruct (remove_block id (live a)) as [[b r]|] eqn:E; [|discriminate].
+  destruct (tag_eqb (b_tag b) t); [|discriminate]. intros H; inversion H; subst; clear H. cbn [live].
+  destruct (remove_block_spec _ _ _ _ E) as (_ & l1 & l2 & -> & -> & _).
+  intros x Hx. apply in_app_or in Hx. apply in_or_app. destruct Hx; [left|right; right]; assumption.
+Qed.
+Lemma alloc_new_tag t n a r a' : alloc t n a = (r, a') -> forall b, In b (live a') -> In b (live a) \/ b_tag b = t.
+Proof.
+  intros E b Hb. pose proof (alloc_cases t n a) as C. rewrite E in C. destruct r as [id|].
+  - destruct C as (_ & Hl & _). rewrite Hl in Hb. destruct Hb as [<-|Hb]; [right; reflexivity|left; assumption].
+  - destruct C as (Hl & _). rewrite Hl in Hb. left; assumption.
+Qed.
